@@ -1083,14 +1083,18 @@ def C(size):
 SIZES = {'small': (1, 2, 255, 256, 510, 511), 'large': (512, 513, 4000, 32768, 65534, 65535)}
 
 
-def fo_side(shape, side, cid, rpi, sz, bits, ptt, ticks, serial, vendor, oserial, mult, transport):
+def fo_side(shape, side, cid, rpi, sz, bits, ptt, ticks, serial, vendor, oserial, mult, transport, full=True):
     """the connection parameter FIELDS are chosen by selectors (6 boundary sizes x all 64 combinations of variable/priority/type/redundant): the bit
     packing is then concrete per path (z3 cannot keep shifts/masks of symbolic ints cheap), ids/RPI/serials/header bytes stay solver variables"""
     o, t = shape.split('_')
     mine = o if side == 'O_T' else t
     other = t if side == 'O_T' else o
-    size = SIZES[mine][concretize(sz, 6)]
-    bits = concretize(bits, 64)
+    if full:
+        size = SIZES[mine][concretize(sz, 6)]
+        bits = concretize(bits, 64)
+    else:                                   # quick tier: 3 sizes (min, mid, max) x 16 field combinations incl. all-zero and all-ones
+        size = (SIZES[mine][0], SIZES[mine][2], SIZES[mine][5])[concretize(sz, 3)]
+        bits = (0, 1, 6, 7, 8, 24, 25, 31, 32, 33, 38, 45, 56, 57, 62, 63)[concretize(bits, 16)]
     var, prio, ctype, red = bits & 1, (bits >> 1) & 3, (bits >> 3) & 3, (bits >> 5) & 1
     sym = conn(cid, rpi, size, var, prio, ctype, red)
     oth = C(400 if other == 'small' else 4000)
@@ -1100,19 +1104,20 @@ def fo_side(shape, side, cid, rpi, sz, bits, ptt, ticks, serial, vendor, oserial
 
 for shape in ('small_small', 'large_large', 'small_large', 'large_small'):
     for side in ('O_T', 'T_O'):
-        define(globals(), 'C01', 'forward_open_request_%s_%s' % (shape, side),
-               ['cid', 'rpi', 'sz', 'bits', 'ptt', 'ticks', 'serial', 'vendor', 'oserial', 'mult', 'transport'],
-               "return fo_side(%r, %r, cid, rpi, sz, bits, ptt, ticks, serial, vendor, oserial, mult, transport)" % (shape, side),
-               ['0 <= cid <= 0xFFFFFFFF and 0 <= rpi <= 0xFFFFFFFF and 0 <= sz <= 5 and 0 <= bits <= 63',
-                inr(['ptt', 'ticks', 'mult', 'transport']), '0 <= serial <= 0xFFFF and 0 <= vendor <= 0xFFFF and 0 <= oserial <= 0xFFFFFFFF'],
-               tier='quick' if (shape, side) in (('small_small', 'O_T'), ('large_large', 'T_O'), ('small_large', 'O_T'), ('large_small', 'T_O')) else 'thorough',
-               timeout=1800, path_timeout=300, drives=FO_DRIVES,
-               symbolic=['cid, rpi (32 bit), header bytes, serials: solver variables', 'sz: selects one of 6 boundary sizes of the %s range' % (shape.split('_')[0 if side == 'O_T' else 1]),
-                         'bits: selects every combination of variable (2) x priority (4) x type (4) x redundant (2)'],
-               bounds='Forward Open request with O->T %s / T->O %s connection; the %s connection takes every combination of the parameter fields and 6 boundary sizes '
-                      '(selector-enumerated), ids/RPI/serials/header fields symbolic; the other connection concrete; either side large => Large Forward Open with both '
-                      'parameter words in the 32-bit layout' % (shape.split('_')[0], shape.split('_')[1], side),
-               outside='sizes other than the 6 boundary values per range; both connections varying at once; other connection paths')
+        for full in (False, True):
+            define(globals(), 'C01', 'forward_open_request_%s_%s%s' % (shape, side, '_all' if full else ''),
+                   ['cid', 'rpi', 'sz', 'bits', 'ptt', 'ticks', 'serial', 'vendor', 'oserial', 'mult', 'transport'],
+                   "return fo_side(%r, %r, cid, rpi, sz, bits, ptt, ticks, serial, vendor, oserial, mult, transport, %r)" % (shape, side, full),
+                   ['0 <= cid <= 0xFFFFFFFF and 0 <= rpi <= 0xFFFFFFFF and 0 <= sz <= %d and 0 <= bits <= %d' % ((5, 63) if full else (2, 15)),
+                    inr(['ptt', 'ticks', 'mult', 'transport']), '0 <= serial <= 0xFFFF and 0 <= vendor <= 0xFFFF and 0 <= oserial <= 0xFFFFFFFF'],
+                   tier='thorough' if full or (shape, side) not in (('small_small', 'O_T'), ('large_large', 'T_O'), ('small_large', 'O_T'), ('large_small', 'T_O')) else 'quick',
+                   timeout=3000, path_timeout=300, drives=FO_DRIVES,
+                   symbolic=['cid, rpi (32 bit), header bytes, serials: solver variables', 'sz: selects one of %d boundary sizes' % (6 if full else 3),
+                             'bits: selects %d combinations of variable x priority x type x redundant' % (64 if full else 16)],
+                   bounds='Forward Open request with O->T %s / T->O %s connection; the %s connection takes %s of the parameter fields and %d boundary sizes '
+                          '(selector-enumerated), ids/RPI/serials/header fields symbolic; the other connection concrete; either side large => Large Forward Open with '
+                          'both parameter words in the 32-bit layout' % (shape.split('_')[0], shape.split('_')[1], side, 'every combination' if full else '16 combinations', 6 if full else 3),
+                   outside='other sizes; both connections varying at once; other connection paths')
 
 
 def do_forward_open_reply(large, oid, tid, serial, vendor, oserial, oapi, tapi, n, a0, a1, a2):
